@@ -554,12 +554,24 @@ theorem own_directory_source_refused (st : State) (op : Op) (loc : Located)
   have hn : newOf op (locate op) = none := by
     rw [locate_eq_spec, hl]
     unfold newOf
-    by_cases hv : validName loc.name = true <;> simp [hv, ho]
+    by_cases hv : validName loc.name = true <;> simp [hv, ho, blocked]
   have ht : touchSt st op = st := by
     unfold touchSt
     rw [locate_eq_spec, hl]
     simp [srcChmod, ho]
   simp [install, ht, install1, hn]
+
+/-- a context that is already done when Install is called: no plugin is executed, the
+installation is refused, the root is what it was (up to the source chmod, which comes
+before the first execution) -/
+theorem cancelled_context_refused (st : State) (op : Op) (hc : op.ctx = "cancelled") :
+    (install st op).1.err = .other ∧ (install st op).2 = touchSt st op := by
+  have hn : newOf op (locate op) = none := by
+    unfold newOf
+    cases locate op with
+    | none => rfl
+    | some l => by_cases hv : validName l.name = true <;> simp [hv, blocked, hc]
+  simp [install, install1, hn]
 
 /-- **replace_iff**: an existing, answering plugin (its executable is there and reports
 version `vo`) is replaced by a usable source of the same name iff overwrite is requested or
@@ -718,25 +730,25 @@ theorem linked_directory_source_unusable (st : State) (op : Op) (hk : op.srcIsDi
 
 /-- name and version of what a source would install depend on the operation only through the
 located executable and on where the source lies -/
-theorem newOf_name_version (op op' : Op) (l : Option Located) (h : op.srcIn = op'.srcIn) :
+theorem newOf_name_version (op op' : Op) (l : Option Located) (h : op.srcIn = op'.srcIn) (hc : op.ctx = op'.ctx) :
     (newOf op l).map (fun n => (n.name, n.version)) = (newOf op' l).map (fun n => (n.name, n.version)) := by
   unfold newOf
   cases l with
   | none => rfl
   | some l =>
     simp only
-    have hio : insideOwn op' l.name = insideOwn op l.name := by simp [insideOwn, h]
+    have hio : blocked op' l.name = blocked op l.name := by simp [blocked, insideOwn, h, hc]
     rw [hio]
     by_cases hv : validName l.name = true
-    · by_cases hi : insideOwn op l.name = true
+    · by_cases hi : blocked op l.name = true
       · simp [hv, hi]
       · cases hm : metadata l.name l.exe <;> simp [hv, hi, hm]
     · simp [hv]
 
-theorem dir_equals_file_source (st : State) (ow : Bool) (base inn : Text) (lnk : Bool) (es : List Entry)
+theorem dir_equals_file_source (st : State) (ow : Bool) (base inn : Text) (lnk : Bool) (cx : String) (es : List Entry)
     (f : File) (h : execs (topFiles es) = [f]) (e : Entry) (he : e.kind = .file) (hf : e.toFile = f) :
-    let opD : Op := ⟨.install, [], ow, true, base, inn, false, es⟩   -- not through a link: see `linked_directory_source_unusable`
-    let opF : Op := ⟨.install, [], ow, false, f.name, inn, lnk, [e]⟩
+    let opD : Op := ⟨.install, [], ow, true, base, inn, false, es, cx⟩   -- not through a link: see `linked_directory_source_unusable`
+    let opF : Op := ⟨.install, [], ow, false, f.name, inn, lnk, [e], cx⟩
     (install1 st opD).1 = (install1 st opF).1 ∧
     (∀ nw, specNew opD = some nw →
         ∃ nw', specNew opF = some nw' ∧ nw'.name = nw.name ∧ nw'.version = nw.version ∧
@@ -762,9 +774,16 @@ theorem dir_equals_file_source (st : State) (ow : Bool) (base inn : Text) (lnk :
     obtain ⟨hexe, hpn, hch⟩ := mkLocated_some hl'
     have hexe' : loc.exe = f := by rw [hexe]; cases f; simp
     have hfc := find_copied hl
-    have hio : insideOwn opF loc.name = false := by
-      have := newOf_not_inside hn
-      simpa [insideOwn, opD, opF, hname] using this
+    have hio : blocked opF loc.name = false := by
+      have hb : blocked opD loc.name = false := by
+        have h0 := hn
+        unfold specNew newOf at h0
+        rw [hl] at h0
+        simp only [hv, Bool.not_true, Bool.false_eq_true, if_false] at h0
+        by_cases hb : blocked opD loc.name = true
+        · simp [hb] at h0
+        · simpa using hb
+      simpa [blocked, insideOwn, opD, opF] using hb
     refine ⟨⟨loc.name, nw.version, [loc.exe]⟩, ?_, hname.symm, rfl, by simp [hexe'], ?_, ?_⟩
     · simp [specNew, newOf, hmk, hl', hv, hm, copied, opF, hio]
     · rw [hfiles]; simp [copied, opD, hch]
@@ -774,7 +793,7 @@ theorem dir_equals_file_source (st : State) (ow : Bool) (base inn : Text) (lnk :
   simp only [install1, locate_eq_spec]
   cases hnD : newOf opD (specLocate opD) with
   | none =>
-    have h2 := newOf_name_version opD opF (specLocate opD) rfl
+    have h2 := newOf_name_version opD opF (specLocate opD) rfl rfl
     rw [hnD, hloc] at h2
     have : newOf opF (specLocate opF) = none := by
       cases hx : newOf opF (specLocate opF) with
@@ -1065,21 +1084,21 @@ example : (["1.0", "v1.0.0", "01.0.0", "", "1.0.0-01", "1.0.0+", "1.0.0-a..b", "
 example : (["0.0.0", "1.0.0-0a", "1.0.0--", "1.0.0-a.-.b+001", "1.2.3-rc.1+b.7"].map
     (fun s => isValid (t s))) = [true, true, true, true, true] := by decide
 
-private def sFoo (v : String) : Script := ⟨t "foo", t v, true, false⟩
+private def sFoo (v : String) : Script := ⟨t "foo", t v, true, false, 0⟩
 private def exeFoo (v : String) (cid : Nat) (exe : Bool := true) : Entry :=
   ⟨.file, t "notation-foo", exe, false, cid, some (sFoo v), []⟩
 private def extra (n : String) (cid : Nat) : Entry := ⟨.file, t n, false, false, cid, none, []⟩
 private def instFile (v : String) (cid : Nat) (ow : Bool := false) : Op :=
-  ⟨.install, [], ow, false, t "notation-foo", [], false, [exeFoo v cid]⟩
-private def instDir (es : List Entry) (ow : Bool := false) : Op := ⟨.install, [], ow, true, t "pkg", [], false, es⟩
+  ⟨.install, [], ow, false, t "notation-foo", [], false, [exeFoo v cid], "background"⟩
+private def instDir (es : List Entry) (ow : Bool := false) : Op := ⟨.install, [], ow, true, t "pkg", [], false, es, "background"⟩
 private def seq (ops : List Op) : Input := ⟨"seq", false, "none", ops, [], []⟩
 private def errs (i : Input) : List Err := (run i).steps.map (·.err)
 private def versions (i : Input) : List (List (Option Text)) := (run i).steps.map (fun s => s.root.map (·.version))
 
 -- upgrade replaces, equal and lower are refused with their classes, overwrite replaces
 example : errs (seq [instFile "1.0.0" 1, instFile "1.1.0-alpha" 2, instFile "1.1.0-alpha" 3, instFile "1.0.1" 4,
-    instFile "1.0.1" 5 true, instFile "1.0" 6, ⟨.uninstall, t "foo", false, false, [], [], false, []⟩,
-    ⟨.uninstall, t "foo", false, false, [], [], false, []⟩]) =
+    instFile "1.0.1" 5 true, instFile "1.0" 6, ⟨.uninstall, t "foo", false, false, [], [], false, [], "background"⟩,
+    ⟨.uninstall, t "foo", false, false, [], [], false, [], "background"⟩]) =
     [.ok, .ok, .equalVersion, .downgrade, .ok, .other, .ok, .notExist] := by decide
 example : versions (seq [instFile "1.0.0" 1, instFile "1.1.0-alpha" 2, instFile "1.0.1" 4, instFile "1.0.1" 5 true]) =
     [[some (t "1.0.0")], [some (t "1.1.0-alpha")], [some (t "1.1.0-alpha")], [some (t "1.0.1")]] := by decide
@@ -1087,7 +1106,7 @@ private def fo (n : String) (cid : Nat) (exe : Bool) (gox : Bool := false) (ip :
 private def nf (n : String) (exe : Bool) (cid : Nat) (sc : Option Script) : File := ⟨t n, exe, false, cid, sc⟩
 private def sub (n : String) (cid : Nat) (fs : List File) : Entry := ⟨.dir, t n, false, false, cid, none, fs⟩
 private def exeBar (exe : Bool) (cid : Nat) : Entry :=
-  ⟨.file, t "notation-bar", exe, false, cid, some ⟨t "bar", t "1.0.0", true, false⟩, []⟩
+  ⟨.file, t "notation-bar", exe, false, cid, some ⟨t "bar", t "1.0.0", true, false, 0⟩, []⟩
 
 -- a directory: exactly the regular top-level files, in listing order; the single
 -- non-executable candidate is made executable although `zlib.so` sorts after it
@@ -1104,7 +1123,7 @@ example : errs (seq [instDir [exeFoo "1.0.0" 1, exeBar true 2], instDir [exeFoo 
 `gox = true`) is refused as a single file, is made owner-executable as the only candidate of
 a directory, and does not count as a second executable next to a real one -/
 private def foo654 (v : String) (cid : Nat) : Entry := ⟨.file, t "notation-foo", false, true, cid, some (sFoo v), []⟩
-example : errs (seq [⟨.install, [], false, false, t "notation-foo", [], false, [foo654 "1.0.0" 1]⟩]) = [.other] := by decide
+example : errs (seq [⟨.install, [], false, false, t "notation-foo", [], false, [foo654 "1.0.0" 1], "background"⟩]) = [.other] := by decide
 example : (run (seq [instDir [foo654 "1.0.0" 1]])).steps.map (·.root) =
     [[⟨t "foo", [fo "notation-foo" 1 true true], some (t "1.0.0")⟩]] := by decide
 example : (run (seq [instDir [exeBar true 1, foo654 "1.0.0" 2]])).steps.map (·.root) =
@@ -1133,10 +1152,10 @@ example : (clauses halfReplace halfReplaceObs).failed =
 /-- a stale directory (interrupted installation: `libfoo-1.so` landed, `notation-foo` did not):
 it is listed, cannot be fetched, counts as absent for Install - which succeeds without
 overwrite and ends with EXACTLY the source's files -, and Uninstall removes it -/
-private def plantFoo (es : List Entry) : Op := ⟨.plant, t "foo", false, false, [], [], false, es⟩
+private def plantFoo (es : List Entry) : Op := ⟨.plant, t "foo", false, false, [], [], false, es, "background"⟩
 private def stale : Input :=
   seq [plantFoo [extra "libfoo-1.so" 1, extra "LICENSE" 2], instDir [extra "libfoo-2.so" 3, exeFoo "1.0.0" 4],
-       plantFoo [extra "libfoo-1.so" 5], ⟨.uninstall, t "foo", false, false, [], [], false, []⟩]
+       plantFoo [extra "libfoo-1.so" 5], ⟨.uninstall, t "foo", false, false, [], [], false, [], "background"⟩]
 example : (run stale).steps.map (fun s => (s.err, s.root, s.listed)) =
     [(.ok, [⟨t "foo", [fo "LICENSE" 2 false, fo "libfoo-1.so" 1 false], none⟩], [t "foo"]),
      (.ok, [⟨t "foo", [fo "libfoo-2.so" 3 false, fo "notation-foo" 4 true], some (t "1.0.0")⟩], [t "foo"]),
@@ -1149,19 +1168,19 @@ example : Holds (seq [plantFoo [extra "libfoo-1.so" 1], instDir [exeFoo "1.0.0" 
      false, false, none⟩ = false := by decide
 /-- a malfunctioning existing plugin (its executable is there but does not answer) is kept
 without overwrite and replaced with overwrite; deleting only the binary makes it "absent" -/
-example : errs (seq [plantFoo [⟨.file, t "notation-foo", true, false, 1, some ⟨t "foo", t "1.0.0", false, false⟩, []⟩],
-    instFile "2.0.0" 2, instFile "2.0.0" 3 true, ⟨.rmexe, t "foo", false, false, [], [], false, []⟩, instFile "1.0.0" 4]) =
+example : errs (seq [plantFoo [⟨.file, t "notation-foo", true, false, 1, some ⟨t "foo", t "1.0.0", false, false, 7⟩, []⟩],
+    instFile "2.0.0" 2, instFile "2.0.0" 3 true, ⟨.rmexe, t "foo", false, false, [], [], false, [], "background"⟩, instFile "1.0.0" 4]) =
     [.ok, .other, .ok, .ok, .ok] := by decide
 
 /-- the source is the installed plugin's own directory / its own executable (also through a
 symbolic link): refused by the guard, with and without overwrite, nothing changes; from
 ANOTHER plugin's directory it installs -/
 private def fromRoot (dirName : String) (isDir : Bool) (es : List Entry) (ow : Bool) (lnk : Bool := false) : Op :=
-  ⟨.install, [], ow, isDir, if isDir then t dirName else t "notation-foo", t dirName, lnk, es⟩
+  ⟨.install, [], ow, isDir, if isDir then t dirName else t "notation-foo", t dirName, lnk, es, "background"⟩
 private def selfSrc : Input :=
   seq [instFile "1.0.0" 1, fromRoot "foo" true [exeFoo "1.0.0" 1] false, fromRoot "foo" true [exeFoo "1.0.0" 1] true,
        fromRoot "foo" false [exeFoo "1.0.0" 1] true true,
-       ⟨.plant, t "bar", false, false, [], [], false, [exeFoo "2.0.0" 2, extra "LICENSE" 3]⟩,
+       ⟨.plant, t "bar", false, false, [], [], false, [exeFoo "2.0.0" 2, extra "LICENSE" 3], "background"⟩,
        fromRoot "bar" true [exeFoo "2.0.0" 2, extra "LICENSE" 3] false]
 example : errs selfSrc = [.ok, .other, .other, .other, .ok, .ok] := by decide
 example : ((run selfSrc).steps.map (·.root)).getLast? =
@@ -1191,7 +1210,7 @@ example : Holds ownNonExec
 location, so the candidate gets the bit (the one write outside the plugin's own directory),
 then the version check refuses: only that bit of `<root>/bar/notation-foo` differs, `bar`
 and `foo` answer what they answered -/
-example : (run (seq [instFile "2.0.0" 1, ⟨.plant, t "bar", false, false, [], [], false, [foo644 "1.0.0" 2]⟩,
+example : (run (seq [instFile "2.0.0" 1, ⟨.plant, t "bar", false, false, [], [], false, [foo644 "1.0.0" 2], "background"⟩,
       fromRoot "bar" true [foo644 "1.0.0" 2] false])).steps.map (fun s => (s.err, s.root)) =
     [(.ok, [⟨t "foo", [fo "notation-foo" 1 true], some (t "2.0.0")⟩]),
      (.ok, [⟨t "bar", [fo "notation-foo" 2 false], none⟩, ⟨t "foo", [fo "notation-foo" 1 true], some (t "2.0.0")⟩]),
@@ -1202,17 +1221,17 @@ example : (run (seq [instFile "2.0.0" 1, ⟨.plant, t "bar", false, false, [], [
 disappeared: it stops answering, keeps its files; without overwrite NO version replaces it
 (lower, equal, higher), with overwrite it is replaced -/
 private def exeFooI (v : String) (cid : Nat) : Entry :=
-  ⟨.file, t "notation-foo", true, false, cid, some ⟨t "foo", t v, true, true⟩, []⟩
+  ⟨.file, t "notation-foo", true, false, cid, some ⟨t "foo", t v, true, true, 0⟩, []⟩
 private def noInterp : Input :=
-  seq [⟨.install, [], false, false, t "notation-foo", [], false, [exeFooI "2.0.0" 1]⟩,
-       ⟨.rminterp, t "foo", false, false, [], [], false, []⟩,
+  seq [⟨.install, [], false, false, t "notation-foo", [], false, [exeFooI "2.0.0" 1], "background"⟩,
+       ⟨.rminterp, t "foo", false, false, [], [], false, [], "background"⟩,
        instFile "1.0.0" 2, instFile "2.0.0" 3, instFile "3.0.0" 4, instFile "1.0.0" 5 true]
 example : (run noInterp).steps.map (fun s => (s.err, s.root.map (fun p => (p.files.map (·.cid), p.version)))) =
     [(.ok, [([1], some (t "2.0.0"))]), (.ok, [([1], none)]), (.other, [([1], none)]), (.other, [([1], none)]),
      (.other, [([1], none)]), (.ok, [([5], some (t "1.0.0"))])] := by decide
 /-- replacing it without overwrite (what seeded change C20-12 does) violates the rule -/
-example : Holds (seq [⟨.install, [], false, false, t "notation-foo", [], false, [exeFooI "2.0.0" 1]⟩,
-      ⟨.rminterp, t "foo", false, false, [], [], false, []⟩, instFile "1.0.0" 2])
+example : Holds (seq [⟨.install, [], false, false, t "notation-foo", [], false, [exeFooI "2.0.0" 1], "background"⟩,
+      ⟨.rminterp, t "foo", false, false, [], [], false, [], "background"⟩, instFile "1.0.0" 2])
     ⟨[⟨.ok, none, some (t "2.0.0"), [⟨t "foo", [fo "notation-foo" 1 true false true], some (t "2.0.0")⟩], [t "foo"]⟩,
       ⟨.ok, none, none, [⟨t "foo", [fo "notation-foo" 1 true false true], none⟩], [t "foo"]⟩,
       ⟨.ok, none, some (t "1.0.0"), [⟨t "foo", [fo "notation-foo" 2 true], some (t "1.0.0")⟩], [t "foo"]⟩],
